@@ -183,11 +183,15 @@ def election_prog(msg: 'str'):
 # ---------------------------------------------------------------------------------------------
 # Ballot
 
-@contract('droop.election.Election.Ballot.advance', props=['C06'])
+@contract('droop.election.Election.Ballot.advance', props=['C06', 'C02'], ledger=True)
 def ballot_advance(self: 'Ballot'):
     requires(and_(self.index >= 0, self.index < seq_len(self.ranking)), name='advance only a ballot that is not exhausted')
     ensures(self.index == old(self.index) + 1)
+    # ledger: the value the ballot carries moves from the candidate it stood with to the next one on it (0: exhausted)
+    ensures(ghost_moved('G', old(top_ref(self)), top_ref(self), ballot_value(self), is_ballot(self)),
+            name='ledger: the value carried by the ballot moves with it')
     modifies(self, 'index')
+    modifies_ghost('G')
 
 
 @contract('droop.election.Election.Ballot.exhausted', props=['C06'])
